@@ -798,11 +798,13 @@ func (lc *leaderController) write(ctx context.Context, requestSupplier func(offs
 		cb.OnCompleteError(err)
 		return
 	}
+	// The lock is held until the entry has been handed over to the WAL: the WAL only accepts
+	// contiguous offsets, so the offset allocation and the append must not interleave with
+	// the ones of concurrent writers (nor with a new term being installed).
 	newOffset := lc.quorumAckTracker.NextOffset()
 	walLog := lc.wal
 	tracker := lc.quorumAckTracker
 	term := lc.term
-	lc.Unlock()
 	request := requestSupplier(newOffset)
 
 	lc.log.Debug("Append operation", slog.Any("req", request))
@@ -814,10 +816,12 @@ func (lc *leaderController) write(ctx context.Context, requestSupplier func(offs
 	logEntryValue.Value = &proto.LogEntryValue_Requests{Requests: &proto.WriteRequests{Writes: []*proto.WriteRequest{request}}}
 	value, err := logEntryValue.MarshalVT()
 	if err != nil {
+		lc.Unlock()
 		cb.OnCompleteError(err)
 		return
 	}
 
+	defer lc.Unlock()
 	walLog.AppendAndSync(&proto.LogEntry{
 		Term:      term,
 		Offset:    newOffset,
